@@ -138,6 +138,10 @@ impl Model {
                             Expect::Unspecified
                         }
                     }
+                    // Get Endpoint ID / UUID / Message Types take no request data; what a request
+                    // that carries some is answered with is pinned by no property (benign/C12-k
+                    // answers ErrorInvalidLength)
+                    0x02 | 0x03 | 0x05 if !data.is_empty() => Expect::Unspecified,
                     0x02 => Expect::Respond { cmd: 0x02, data: vec![Some(0x00), Some(self.resp_eid), None, None], what: "get-eid", exact: false },
                     0x03 => {
                         let mut d = vec![0x00u8];
